@@ -429,6 +429,85 @@ fn long_genome_jobs(jobs: &mut Vec<Job>) {
     }
 }
 
+/// Empty parents: the configured empty-genome addition rate is the rate at which one gene appears
+/// (`new` uses the addition rate, `new_without_empty` never adds).  Whether that single new gene is
+/// "subject to deletion too" is not stated, so both e and e(1-d) are accepted (best fit).
+fn umad_empty_parent_jobs(jobs: &mut Vec<Job>) {
+    for (ctor, a, e, d) in [(0u8, 0.3f64, 0.3f64, 0.0f64), (0, 0.7, 0.7, 0.25), (1, 0.1, 0.6, 0.0), (1, 0.9, 0.2, 0.5), (1, 0.5, 1.0, 0.0), (1, 0.5, 0.0, 0.3), (2, 0.8, 0.0, 0.1)] {
+        let ctor_name = ["new", "new_with_empty_rate", "new_without_empty"][usize::from(ctor)];
+        let label = format!("Umad::{ctor_name}(add {a}, empty {e}, del {d}) on an empty Vector");
+        jobs.push(job(label.clone(), move |n, seed| {
+            let mut rng = StdRng::seed_from_u64(seed);
+            let u = match ctor {
+                0 => Umad::new(a, d, NewGene),
+                1 => Umad::new_with_empty_rate(a, e, d, NewGene),
+                _ => Umad::new_without_empty(a, d, NewGene),
+            };
+            let mut one = 0u64;
+            for _ in 0..n {
+                let Ok(c) = u.mutate(Vector { genes: Vec::<Tg>::new() }, &mut rng);
+                match c.genes.as_slice() {
+                    [] => {}
+                    [Tg::New] => one += 1,
+                    other => return Err(Fail::new("Umad<Vector>/structure", format!("{label}: child {other:?}"))),
+                }
+            }
+            let readings = [e, e * (1.0 - d)];
+            let p = readings.into_iter().find(|p| !crate::stats::flags(one, n, *p, crate::stats::ALPHA)).unwrap_or(e);
+            Ok(vec![Stat::new("Umad<Vector>/empty-genome-addition-rate", format!("{label}: one gene added"), one, n, p)])
+        }));
+    }
+}
+
+/// Very small positive rates.  A 24-bit draw cannot realise them exactly (the applied rate is the next
+/// multiple of 2^-24), so no law is tested - but a positive rate must still flip genes now and then, and
+/// not far more often than configured: with G genes at rate q the flip count is judged against the window
+/// [q G / 4, 4 q G + 50] only (the expectation is >= 40, so an empty count has probability < e^-40).
+fn tiny_rate_jobs(jobs: &mut Vec<Job>) {
+    use rayon::prelude::*;
+    for (what, len, muts) in [("WithRate(1e-7) on Vec<bool>", 1_000_000usize, 400u64), ("WithOneOverLength on Vec<bool> of 2^23 + 9 genes", (1usize << 23) + 9, 48)] {
+        let label = format!("{what}, {muts} mutations");
+        jobs.push(job(label.clone(), move |n, seed| {
+            // thorough runs four times as many mutations
+            let muts = if n > 10_000_000 { muts * 4 } else { muts };
+            let one_over = what.starts_with("WithOneOverLength");
+            let q = if one_over { 1.0 / len as f64 } else { 1e-7 };
+            let flips: u64 = (0..muts)
+                .into_par_iter()
+                .map(|k| {
+                    let mut rng = StdRng::seed_from_u64(seed ^ k.wrapping_mul(0x9E37_79B9_7F4A_7C15));
+                    let parent = vec![false; len];
+                    let child: Vec<bool> = if one_over {
+                        match WithOneOverLength.mutate(parent, &mut rng) {
+                            Ok(c) => c,
+                            Err(_) => return u64::MAX / (muts * 2),
+                        }
+                    } else {
+                        let Ok(c) = WithRate::new(1e-7).mutate(parent, &mut rng);
+                        c
+                    };
+                    if child.len() != len {
+                        return u64::MAX / (muts * 2);
+                    }
+                    child.iter().filter(|b| **b).count() as u64
+                })
+                .sum();
+            let genes = muts * len as u64;
+            let expect = q * genes as f64;
+            if flips > genes {
+                return Err(Fail::new("WithRate<Vec<bool>>/tiny-rate", format!("{label}: an error or a child of another length was returned")));
+            }
+            if (flips as f64) < expect / 4.0 || (flips as f64) > 4.0 * expect + 50.0 {
+                return Err(Fail::new(
+                    "WithRate<Vec<bool>>/tiny-rate",
+                    format!("{label}: {flips} flips in {genes} genes at rate {q:e} (expected about {expect:.0}); a positive rate, however small, is not rate 0"),
+                ));
+            }
+            Ok(vec![Stat::new("WithRate<Vec<bool>>/tiny-rate", format!("{label}: window check passed"), 1, 1, 1.0)])
+        }));
+    }
+}
+
 fn uniform_xo_jobs(jobs: &mut Vec<Job>) {
     for bits in [false, true] {
         for len in [1usize, 10, 64] {
@@ -639,11 +718,13 @@ fn gene_generator_jobs(jobs: &mut Vec<Job>) {
 
 pub fn run(ctx: &mut Ctx) {
     let trials = ctx.tier.pick(2_000_000u64, 40_000_000);
-    ctx.rule = format!("one job per (operator, configuration): WithRate / WithOneOverLength flips (total, per position, adjacent pairs = p^2) on Vec<bool> and Bitstring over a rate grid incl. generated rates and lengths 1..64; UMAD four-outcome law on a single gene and survivor / new-gene rates on Vector and Plushy genomes; uniform crossover per position; long genomes (130 and 600 genes) through UniformXo, WithRate, Bitstring::random*, and UMAD deletions / additions with per-position rates and the agreement law p^2+(1-p)^2 of disjoint position pairs at lags 1..257 (independence beyond any machine-word or byte-counter period); Bitstring::random / random_with_probability per bit; GeneGenerator close probability (default 1/(n+1) and explicit) and instruction frequencies (uniform and skewed) for n in 1..20. {trials} seeded trials per job, each statistic compared with its exact law (p = 0 and p = 1 decided exactly). non-trivial = a (statistic, configuration) pair with 0 < p < 1, counted once");
+    ctx.rule = format!("one job per (operator, configuration): WithRate / WithOneOverLength flips (total, per position, adjacent pairs = p^2) on Vec<bool> and Bitstring over a rate grid incl. generated rates and lengths 1..64; UMAD four-outcome law on a single gene, survivor / new-gene rates on Vector and Plushy genomes and the empty-genome addition rate of all three constructors; very small positive rates (1e-7, and 1/length for 2^23 + 9 genes) still flip genes (window check only, no law); uniform crossover per position; long genomes (130 and 600 genes) through UniformXo, WithRate, Bitstring::random*, and UMAD deletions / additions with per-position rates and the agreement law p^2+(1-p)^2 of disjoint position pairs at lags 1..257 (independence beyond any machine-word or byte-counter period); Bitstring::random / random_with_probability per bit; GeneGenerator close probability (default 1/(n+1) and explicit) and instruction frequencies (uniform and skewed) for n in 1..20. {trials} seeded trials per job, each statistic compared with its exact law (p = 0 and p = 1 decided exactly). non-trivial = a (statistic, configuration) pair with 0 < p < 1, counted once");
     ctx.assumptions.push("not detectable: < vs <= on a continuous draw, f32/f64 rounding of a rate (< 1e-7), rate errors below the stated resolution".into());
     let mut jobs = vec![];
     flip_jobs(ctx.seed, &mut jobs);
     umad_jobs(ctx.seed, &mut jobs);
+    umad_empty_parent_jobs(&mut jobs);
+    tiny_rate_jobs(&mut jobs);
     uniform_xo_jobs(&mut jobs);
     long_genome_jobs(&mut jobs);
     bitstring_jobs(ctx.seed, &mut jobs);
